@@ -2,6 +2,7 @@ package c16
 
 import (
 	"bytes"
+	"regexp"
 	"fmt"
 	"os"
 	"path/filepath"
@@ -115,7 +116,13 @@ func mkEdit(c *core.Ctx, kind string, minLen int, used map[string]bool) (edit, b
 	panic(kind)
 }
 
-func runAnnotate(c *core.Ctx) {
+// runAnnotateSelected: obiannotate together with a selection option: the selected records must all be
+// output, edited, in input order (what happens to the unselected ones is free).
+func runAnnotateSelected(c *core.Ctx) { annotate(c, true) }
+
+func runAnnotate(c *core.Ctx) { annotate(c, false) }
+
+func annotate(c *core.Ctx, withSelection bool) {
 	// option subsets: singles, pairs, larger
 	n := len(annotKinds)
 	var kinds []string
@@ -176,15 +183,56 @@ func runAnnotate(c *core.Ctx) {
 			keepSet[e.args[1]] = true
 		}
 	}
-	dir := filepath.Join(c.Dir, fmt.Sprintf("ann-%d", c.Idx))
+	dir := filepath.Join(c.Dir, fmt.Sprintf("ann-%d-%v", c.Idx, withSelection))
 	os.MkdirAll(dir, 0o755)
 	defer os.RemoveAll(dir)
+	selected := func(r R) bool { return true }
+	nfiles := 1
+	if withSelection {
+		// the records are spread over several input files (each file makes its own batches) and
+		// whole files are deselected, so that whole batches are emptied in front of selected ones
+		nfiles = 3 + c.Rng.Intn(3)
+		dropFile := c.Rng.Intn(nfiles - 1)
+		for i := range recs {
+			recs[i].Sample = "aa"
+			f := i * nfiles / len(recs)
+			if f == dropFile || (f != nfiles-1 && c.Rng.Intn(4) == 0) {
+				recs[i].Sample = "zz"
+			}
+		}
+		cr := mkCrit(c, "-a", recs, dir)
+		cr = crit{"-a", []string{"-a", "sample=^a"}, func(r R) bool { return strings.HasPrefix(r.Sample, "a") }}
+		args = append(args, cr.args...)
+		opts = append(opts, "[-a]")
+		selected = cr.pred
+	}
 	in := filepath.Join(dir, "in.fa")
 	os.WriteFile(in, render(recs, fastq), 0o644)
+	inputs := []string{in}
+	if nfiles > 1 {
+		inputs = nil
+		for f := 0; f < nfiles; f++ {
+			lo, hi := f*len(recs)/nfiles, (f+1)*len(recs)/nfiles
+			// record i belongs to file i*nfiles/len: recompute the bounds accordingly
+			var part []R
+			for i, r := range recs {
+				if i*nfiles/len(recs) == f {
+					part = append(part, r)
+				}
+			}
+			_, _ = lo, hi
+			p := filepath.Join(dir, fmt.Sprintf("in%d.fa", f))
+			os.WriteFile(p, render(part, fastq), 0o644)
+			inputs = append(inputs, p)
+		}
+	}
 	cfgs := [][2]int{{1, 100}, {4, 7}, {16, 1}}
+	if withSelection {
+		cfgs = [][2]int{{4, 7}, {16, 1}, {2, 3}}
+	}
 	cfg := cfgs[c.Rng.Intn(3)]
 	full := append([]string{"--no-progressbar", "--max-cpu", fmt.Sprint(cfg[0]), "--batch-size", fmt.Sprint(cfg[1])}, args...)
-	full = append(full, in)
+	full = append(full, inputs...)
 	res := cmdx.Run(filepath.Join(c.BinDir, "obiannotate"), full, cmdx.Opt{})
 	c.Count("evaluations", 1)
 	c.Count("records_compared", len(recs))
@@ -207,9 +255,33 @@ func runAnnotate(c *core.Ctx) {
 		c.Violate("output-unparsable", "obiannotate output cannot be parsed", det)
 		return
 	}
+	if withSelection {
+		// keep the selected records only, on both sides (the others are free)
+		var rs []R
+		selIDs := map[string]bool{}
+		for _, r := range recs {
+			if selected(r) {
+				rs = append(rs, r)
+			}
+		}
+		recs = rs
+		// the input id is still recognisable inside the (possibly edited) output id
+		for _, r := range recs {
+			selIDs[r.ID] = true
+		}
+		idRx := regexp.MustCompile(`seq[0-9]{3}[abx]?`)
+		var gs []outRec
+		for _, g := range got {
+			if selIDs[idRx.FindString(g.ID)] {
+				gs = append(gs, g)
+			}
+		}
+		got = gs
+	}
 	if len(got) != len(recs) {
 		det["got_records"] = len(got)
-		c.Violate("record-count:"+sig, "obiannotate does not output every record", det)
+		det["want_records"] = len(recs)
+		c.Violate("record-count:"+sig, "obiannotate does not output every (selected) record", det)
 		return
 	}
 	c.Key("annotate/%s", sig)
